@@ -8,7 +8,7 @@
 //! honest run of the real prover on the current tree (`Labels::learn`), so a consistent
 //! re-labelling does not make this prover's proofs fail (that is C18's business).
 use crate::alphabet;
-use crate::curves::{pt_bytes_unc, sc_bytes, Cv};
+use crate::curves::{pt_bytes, pt_bytes_unc, sc_bytes, Cv};
 use crate::devspace::Slot;
 use crate::program::{exec_op, finish_ctx, Ctx, Dev, Env, Program, Role, Side};
 use crate::proofparts::Parts;
@@ -24,6 +24,8 @@ use std::collections::HashMap;
 pub struct Labels {
     pub label: HashMap<String, &'static [u8]>,
     pub payload: HashMap<String, Vec<u8>>,
+    /// the honest run absorbed points in compressed form (learnt from the payload lengths)
+    pub compressed_points: bool,
 }
 fn leak(s: &str) -> &'static [u8] {
     Box::leak(s.as_bytes().to_vec().into_boxed_slice())
@@ -33,8 +35,12 @@ impl Labels {
     pub fn learn(runs: &[(&Matched, &[crate::schedule::MainEvent])]) -> Labels {
         let mut label = HashMap::new();
         let mut payload = HashMap::new();
+        let mut point_len = 0usize;
         for (m, ev) in runs {
             for (i, (step, l)) in m.labels.iter().enumerate() {
+                if step == "A_I1" {
+                    point_len = ev[i].data.len();
+                }
                 let class = match step.find('[') {
                     Some(p) => {
                         let b = &step[..p];
@@ -52,7 +58,15 @@ impl Labels {
                 }
             }
         }
-        Labels { label, payload }
+        // compressed encodings are 32 or 33 bytes on the supported curves, uncompressed ones 64 or 65
+        Labels { label, payload, compressed_points: point_len > 0 && point_len < 48 }
+    }
+    pub fn enc<G: AffineRepr>(&self, p: &G) -> Vec<u8> {
+        if self.compressed_points {
+            pt_bytes(p)
+        } else {
+            pt_bytes_unc(p)
+        }
     }
     pub fn l(&self, class: &str) -> &'static [u8] {
         self.label.get(class).cloned().unwrap_or_else(|| panic!("label for {} not learnt", class))
@@ -129,7 +143,7 @@ impl<'a, G: Cv> Side<G::ScalarField> for ModelSide<'a, G> {
     }
     fn commit(&mut self, v: G::ScalarField, blind: G::ScalarField) -> Variable<G::ScalarField> {
         let c = (self.pc.B.into_group() * v + self.pc.B_blinding.into_group() * blind).into_affine();
-        self.cs.t.append_message(self.labels.l("V"), &pt_bytes_unc(&c));
+        self.cs.t.append_message(self.labels.l("V"), &self.labels.enc(&c));
         self.comms.push(c);
         let i = self.cs.commits;
         self.cs.commits += 1;
@@ -267,9 +281,9 @@ pub fn ref_prove<G: Cv>(env: &Env<G>, labels: &Labels, prog: &Program, seed: u64
     let a_i1 = dev_point::<G>(&dev, Slot::Pt(0), msm::<G>(&gs[..n1], &asg.l[..n1]) + msm::<G>(&hs[..n1], &asg.r[..n1]) + bb * i1, env, &g0);
     let a_o1 = dev_point::<G>(&dev, Slot::Pt(1), msm::<G>(&gs[..n1], &asg.o[..n1]) + bb * o1, env, &g0);
     let s_1 = dev_point::<G>(&dev, Slot::Pt(2), msm::<G>(&gs[..n1], &sl1) + msm::<G>(&hs[..n1], &sr1) + bb * s1, env, &g0);
-    cs.t.append_message(labels.l("A_I1"), &pt_bytes_unc(&a_i1));
-    cs.t.append_message(labels.l("A_O1"), &pt_bytes_unc(&a_o1));
-    cs.t.append_message(labels.l("S1"), &pt_bytes_unc(&s_1));
+    cs.t.append_message(labels.l("A_I1"), &labels.enc(&a_i1));
+    cs.t.append_message(labels.l("A_O1"), &labels.enc(&a_o1));
+    cs.t.append_message(labels.l("S1"), &labels.enc(&s_1));
     // ---- phase switch and randomized closures
     ctx.refcs.phase_switch();
     cs.pending = None;
@@ -312,9 +326,9 @@ pub fn ref_prove<G: Cv>(env: &Env<G>, labels: &Labels, prog: &Program, seed: u64
     let a_i2 = dev_point::<G>(&dev, Slot::Pt(3), h_i2, env, &g0);
     let a_o2 = dev_point::<G>(&dev, Slot::Pt(4), h_o2, env, &g0);
     let s_2 = dev_point::<G>(&dev, Slot::Pt(5), h_s2, env, &g0);
-    cs.t.append_message(labels.l("A_I2"), &pt_bytes_unc(&a_i2));
-    cs.t.append_message(labels.l("A_O2"), &pt_bytes_unc(&a_o2));
-    cs.t.append_message(labels.l("S2"), &pt_bytes_unc(&s_2));
+    cs.t.append_message(labels.l("A_I2"), &labels.enc(&a_i2));
+    cs.t.append_message(labels.l("A_O2"), &labels.enc(&a_o2));
+    cs.t.append_message(labels.l("S2"), &labels.enc(&s_2));
     let y: F<G> = challenge(&mut cs.t, labels.l("y"));
     let z: F<G> = challenge(&mut cs.t, labels.l("z"));
     let (wl, wr, wo, wv, _wc) = ctx.refcs.flatten(z);
@@ -347,7 +361,7 @@ pub fn ref_prove<G: Cv>(env: &Env<G>, labels: &Labels, prog: &Program, seed: u64
         tpts.push(p);
     }
     for (i, name) in ["T_1", "T_3", "T_4", "T_5", "T_6"].iter().enumerate() {
-        cs.t.append_message(labels.l(name), &pt_bytes_unc(&tpts[i]));
+        cs.t.append_message(labels.l(name), &labels.enc(&tpts[i]));
     }
     let u: F<G> = challenge(&mut cs.t, labels.l("u"));
     let x: F<G> = challenge(&mut cs.t, labels.l("x"));
@@ -392,8 +406,8 @@ pub fn ref_prove<G: Cv>(env: &Env<G>, labels: &Labels, prog: &Program, seed: u64
         }
         let lpt = dev_point::<G>(&dev, Slot::L(round), lp, env, &g0);
         let rpt = dev_point::<G>(&dev, Slot::R(round), rp, env, &g0);
-        cs.t.append_message(labels.l("L"), &pt_bytes_unc(&lpt));
-        cs.t.append_message(labels.l("R"), &pt_bytes_unc(&rpt));
+        cs.t.append_message(labels.l("L"), &labels.enc(&lpt));
+        cs.t.append_message(labels.l("R"), &labels.enc(&rpt));
         lv.push(lpt);
         rv.push(rpt);
         let uj: F<G> = challenge(&mut cs.t, labels.l("u[j]"));
